@@ -3,6 +3,7 @@ import Driver.Proto
 import Driver.Sexp
 import Driver.C08
 import Dawgs.Spec.C07
+import Dawgs.Model.C07Tree
 /-! C07 model driver. Input line: `tree <sexp>` (ANTLR tree with typed leaves). Answer:
 `unsup=[…] | build=<ok|unmodelled:<rule>|rejected:<why>> model=<sexp|-> emit=<json of the despaced token text|-> ignored=[Visitor@rule,…] shapes=[…]`
 * build/model: Lean `build` on the real tree, rendered like harness/sexp.go renders the Go model;
@@ -59,6 +60,29 @@ partial def shapes (t : Tree) : List String :=
     here ++ ks.flatMap shapes ++ repaired
   | _ => []
 
+/-- token types of keyword tokens (names in capitals), written in lower case by format.go -/
+def kwTypes : List Int :=
+  (N.toks.filter (fun p => p.1.length ≥ 2 && p.1.all (fun c => c.isUpper || c == '_') && p.1 != "SP")).map (fun p => (p.2 : Int))
+
+/-- the derivation without layout: SP / EOF / `;` leaves dropped, keyword leaves lower-cased, bare names retagged -/
+partial def strip (top : Bool) (inName : Bool) : Tree → Option Tree
+  | .node r ks =>
+    let nm := ruleName r == "oC_SymbolicName" || ruleName r == "oC_ReservedWord"
+    some (.node r (ks.filterMap (strip false nm)))
+  | .leaf s =>
+    let ty := leafType s
+    if top || ty == N.tok "SP" || ty < 0 then none
+    -- the token type of a name (HexLetter for `a`…`f`, COUNT / FILTER / … used as names) is immaterial: retag bare names
+    else if inName then some (.leaf (mkLeaf (N.tokNat "UnescapedSymbolicName") (leafText s)))
+    else if !inName && kwTypes.contains ty then some (.leaf (mkLeaf ty.toNat (lower (leafText s))))
+    else some (.leaf s)
+  | .err s => some (.err s)
+
+def stripTop (t : Tree) : Tree :=
+  match t with
+  | .node r ks => .node r (ks.filterMap (strip true false))
+  | t => t
+
 def despace (s : String) : String := String.ofList (s.toList.filter (fun c => c != ' '))
 
 def step (_ : Unit) (ts : List String) : Unit × String :=
@@ -83,7 +107,15 @@ def step (_ : Unit) (ts : List String) : Unit × String :=
             ("ok", toSexp q, if toks.contains unknownFloat then "-" else jsonQuote (despace (String.join toks)))
           | .error (.unmodelled r) => ("unmodelled:" ++ r, "-", "-")
           | .error (.rejected w) => ("rejected:" ++ w.replace " " "_", "-", "-")
-        ((), s!"unsup=[{Driver.C08.sortedNames unsup}] | build={b} ignored=[{",".intercalate ign}] shapes=[{",".intercalate sh}] emit={e} model={m}")
+        -- the proved domain: the layout-free tree is the canonical derivation of the (well-formed) model it builds;
+        -- `strip`: building from the layout-free tree gives the same model
+        let st := stripTop t
+        let canon := if canonicalAt N (size st) st then "1" else "0"
+        let same := match build N t, build N st with
+          | .ok q, .ok q' => if toSexp q == toSexp q' then "same" else "diff"
+          | .ok _, .error _ => "diff"
+          | .error _, _ => "-"
+        ((), s!"unsup=[{Driver.C08.sortedNames unsup}] | build={b} ignored=[{",".intercalate ign}] shapes=[{",".intercalate sh}] canon={canon} strip={same} emit={e} model={m}")
       | none => ((), "bad-op")
     | some [.atom "blank"] => ((), "unsup=[] | build=rejected:blank ignored=[] shapes=[] emit=- model=-")
     | _ => ((), "bad-op")
